@@ -10,6 +10,9 @@
     operation is a pre-emption point), ChanAbs monitor (exactly once, in order, both directions, everything queued before
     the shutdown request handled) + deadlock detector (lost wake-up, shutdown that does not complete); the recorded
     traces of a subset are validated line by line against ThreadImpl by TLC (ThreadTrace.tla, linear).
+ 3. free-running: the same owner programs with up to 60 Messages on real threads without the scheduler (real blocking in select()
+    and in the real WaitCondition, real SIGUSR1 signals interrupting the internal thread, timing noise at the hooks); same ChanAbs
+    monitor, a watchdog for "no progress for 30 s".
 """
 import concurrent.futures as cf, os, re
 import vlib
@@ -35,13 +38,19 @@ def run(v, tier, seed):
     tot = {"states": 0, "transitions": 0, "explore": 0, "yields": 0, "events": 0, "trace_lines": 0, "traces": 0, "plans": 0}
     mc_notes = []; samples = []
 
-    def model_check(sockets):
+    def model_check(sockets, timed):
+        # two instances per signalling mechanism: (untimed) the default loop with an extra sender thread; (timed) both internal loops, waits with
+        # a deadline on both sides, an interrupted select() - without the extra sender in the quick tier (together they take 0.5 million states)
         rounds, nm = (1, 2) if tier == "quick" else (2, 2)
-        name = cfg("gen_MC_%d.cfg" % int(sockets), "FairSpec", sockets, nm, 1, rounds, 1, ["Fifo", "PerSenderOrder", "RepliesInOrder"],
-                   ["NoLostWakeup", "ShutdownCompletes", "Delivered", "WaitReturns"], tloops="{TRUE, FALSE}", intr=(1 if sockets else 0))
-        r = vlib.tlc("ThreadImpl", name, "ThreadQueue", coverage=True, workers=6, timeout=3400, heap="10g")
-        vlib.require_ok(r, "ThreadImpl model check sockets=%s" % sockets)
-        vlib.require_coverage(r, [a for a in ACTIONS if not (a == "Drain" and not sockets)] + (["WakeSock", "Interrupt"] if sockets else ["WakeWC"]) + ["WakeTimeout"], "ThreadImpl sockets=%s" % sockets)
+        nextra = 1 if (not timed or tier == "thorough") else 0
+        if tier == "thorough" and timed: rounds = 1
+        name = cfg("gen_MC_%d_%d.cfg" % (int(sockets), int(timed)), "FairSpec", sockets, nm, nextra, rounds, 1, ["Fifo", "PerSenderOrder", "RepliesInOrder"],
+                   ["NoLostWakeup", "ShutdownCompletes", "Delivered", "WaitReturns"], tloops=("{TRUE, FALSE}" if timed else "{FALSE}"), intr=(1 if (sockets and timed) else 0))
+        r = vlib.tlc("ThreadImpl", name, "ThreadQueue", coverage=True, workers=4, timeout=3400, heap="10g")
+        vlib.require_ok(r, "ThreadImpl model check sockets=%s timed=%s" % (sockets, timed))
+        need = [a for a in ACTIONS if not (a == "Drain" and not sockets)] + (["WakeSock"] if sockets else ["WakeWC"])
+        if timed: need += ["WakeTimeout"] + (["Interrupt"] if sockets else [])
+        vlib.require_coverage(r, need, "ThreadImpl sockets=%s timed=%s" % (sockets, timed))
         return r
 
     def reach(sockets):
@@ -70,12 +79,22 @@ def run(v, tier, seed):
                 first.append(line.strip())
         return rows, accepted, other, maxline, tr, first
 
+    def free(sockets, fiters):
+        # real threads without the scheduler: real blocking in select() / the real WaitCondition, real signals, timing noise at the hooks
+        rep = W("free%d.ndjson" % int(sockets))
+        rc, out, err = vlib.run([th, "free", str(fiters), str(seed), "1" if sockets else "0", rep], timeout=(900 if tier == "quick" else 3400))
+        if rc != 0:
+            vlib.harness_failed(v, rc, out, err, "th free (sockets=%s, seed %d)" % (sockets, seed), "crashfree%d" % int(sockets))
+            return [{"summary": True, "executions": 0, "messages_handled": 0}]
+        return vlib.read_ndjson(rep)
+
     iters = 2500 if tier == "quick" else 60000
     ntr = 250 if tier == "quick" else 3000
-    with cf.ThreadPoolExecutor(max_workers=6) as ex:
-        f_mc = [ex.submit(model_check, s) for s in (True, False)]
+    with cf.ThreadPoolExecutor(max_workers=10) as ex:
+        f_mc = [ex.submit(model_check, s, t) for s in (True, False) for t in (False, True)]
         f_rc = [ex.submit(reach, s) for s in (True, False)]
         f_ex = [ex.submit(explore, s, iters, ntr) for s in (True, False)]
+        f_fr = [ex.submit(free, s, 1500 if tier == "quick" else 60000) for s in (True, False)]
         for f in f_mc:
             r = f.result(); tot["states"] += r.distinct; tot["transitions"] += r.generated
             mc_notes.append({"distinct": r.distinct, "generated": r.generated, "depth": r.depth, "wall_s": round(r.wall, 1), "taken": {a: c[0] for a, c in r.coverage.items()}})
@@ -94,14 +113,21 @@ def run(v, tier, seed):
             elif not accepted:
                 v.drift += 1
                 vlib.log("DRIFT property=C11 recorded trace (sockets=%s) is not a behaviour of ThreadImpl: first unexplained line %s in %s" % (s, maxline, tr))
+        for s, f in zip((True, False), f_fr):
+            rows = f.result()
+            summ = [r for r in rows if r.get("summary")][0]
+            tot["free"] = tot.get("free", 0) + summ["executions"]; tot["free_msgs"] = tot.get("free_msgs", 0) + summ["messages_handled"]
+            for r in rows:
+                if r.get("violations"): v.violation("free-running threads (%s signalling): %s" % ("socket" if s else "wait-condition", "; ".join(r["violations"])), r, tag="free%d" % int(s))
     if tot["explore"] == 0 and not v.violations: raise vlib.MachineryError("nothing explored")
     cov = {"states": tot["states"], "transitions": tot["transitions"], "traces_validated_against_impl": tot["traces"],
            "random_executions": tot["explore"], "scheduling_decisions": tot["yields"], "events_checked": tot["events"],
            "trace_lines_validated_by_tlc": tot["trace_lines"],
+           "free_running_executions": tot.get("free", 0), "free_running_messages_handled": tot.get("free_msgs", 0),
            "evaluations": tot["explore"], "distinct_nontrivial": tot["plans"],
            "rule": "executions = seeded random owner plans (1-3 Messages per round, 0-2 sent before the start, 1-2 rounds = restart, 0-2 Messages from an extra sender, polls and blocking waits mixed in) x seeded random schedule, both signalling mechanisms; distinct = distinct plans (a lower bound: the schedules differ too); every one exercises sends, wake-ups and a shutdown",
            "exhaustive": False, "model_runs": mc_notes, "samples": samples}
-    assumptions = ["sequential consistency: the scheduler serialises threads at the hooked operations; weak-memory effects are out of scope",
+    assumptions = ["sequential consistency in the scheduled stages: the scheduler serialises threads at the hooked operations; weak-memory effects and the blocking paths of select() / the real WaitCondition are exercised only by the free-running stage (sampled)",
                    "recorded traces given to TLC keep queue critical sections atomic (no pre-emption while a muscle Mutex is held); all other executions are pre-empted at every hooked operation",
                    "waits with a deadline use a deadline that never passes by itself; the scheduler fires it either at any time or (3 executions in 4) only when no thread can run otherwise - then a receiver that needs its deadline although a Message is queued for it counts as a lost wake-up",
                    "a signal interrupting select() is modelled at the hook in front of it (the wait returns B_TIMED_OUT, as SocketMultiplexer + WaitForNextMessageAux do on EINTR); no real signals are sent in the scheduled stages",
